@@ -62,6 +62,40 @@ def opWrite (j : Json) : Except String Json := do
   let block ← bool (← field j "block")
   pure (ofWSt (s.writeAt t (row.getD s.cur.1) (col.getD s.cur.2) width block maxw))
 
+/-- a sequence of `draw` / `write` calls on one kept widget object -/
+def opGridSeq (j : Json) : Except String Json := do
+  let mut s ← wst (← field j "target")
+  let mut out : Array Json := #[]
+  for st in ← arr (← field j "steps") do
+    let row ← optNat (fieldD st "row" Json.null)
+    let col ← optNat (fieldD st "col" Json.null)
+    let block ← bool (← field st "block")
+    match ← (← field st "op").getStr? with
+    | "draw" =>
+      let src ← grid (← field st "src")
+      s := s.drawAt src (row.getD s.cur.1) (col.getD s.cur.2) block
+    | "write" =>
+      let t ← str (← field st "text")
+      let width ← optInt (fieldD st "width" Json.null)
+      s := s.writeAt t (row.getD s.cur.1) (col.getD s.cur.2) width block none
+    | _ => throw "bad grid step"
+    out := out.push (ofWSt s)
+  pure (Json.arr out)
+
+/-- the rendered lines of every descendant of a widget, in preorder (the widget itself excluded) -/
+partial def nodesOf (w : Wd) : List Json :=
+  let kids : List Wd := match w with
+    | .center _ c => [c]
+    | .window _ _ items => items
+    | .list _ _ _ _ _ _ _ _ items => items
+    | _ => []
+  kids.flatMap fun k => ofGrid k.lines :: nodesOf k
+
+def resWdNodes (r : Except RErr Wd) : Json :=
+  match r with
+  | .ok w => Json.mkObj [("lines", ofGrid w.st.buf), ("cur", ofCur w.st.cur), ("nodes", Json.arr (nodesOf w).toArray)]
+  | .error e => Json.mkObj [("err", errName e)]
+
 /-- a sequence of `render w` / `add subtree` on one kept object -/
 def opTree (j : Json) : Except String Json := do
   let cc ← charClass (← field j "cc")
@@ -74,7 +108,7 @@ def opTree (j : Json) : Except String Json := do
       match ← k.getStr? with
       | "render" =>
         let r := w.render cc (← int a)
-        out := out.push (resWd r)
+        out := out.push (resWdNodes r)
         match r with
         | .ok w' => w := w'
         | .error _ => pure ()
@@ -87,6 +121,22 @@ def opTree (j : Json) : Except String Json := do
       | _ => throw "bad tree op"
     | _ => throw "bad tree op"
   pure (Json.arr out)
+
+/-- a list container (possibly of containers) rendered once, then a sequence of keys typed at it: `process_user_input` looks at the key pattern and the
+items only, whatever the callbacks did before -/
+def opKeyTree (j : Json) : Except String Json := do
+  let cc ← charClass (← field j "cc")
+  let w ← tree (← field j "tree")
+  let width ← int (← field j "w")
+  let cbs ← (← arr (← field j "cbs")).mapM bool
+  let keys ← (← arr (← field j "keys")).mapM optStr
+  let kp := match w with
+    | .list _ _ _ _ _ kp _ _ _ => kp
+    | _ => none
+  let res := keys.map fun k =>
+    let r := processKey cc kp cbs k
+    Json.mkObj [("handled", r.handled), ("fired", match r.fired with | some i => Json.num i | none => Json.null)]
+  pure (Json.mkObj [("render", resWdNodes (w.render cc width)), ("keys", Json.arr res.toArray)])
 
 def opKey (j : Json) : Except String Json := do
   let cc ← charClass (← field j "cc")
@@ -141,7 +191,9 @@ def pureOp (op : String) (j : Json) : Option (Except String Json) :=
   | "draw" => some (opDraw j)
   | "write" => some (opWrite j)
   | "tree" => some (opTree j)
+  | "gridseq" => some (opGridSeq j)
   | "key" => some (opKey j)
+  | "keytree" => some (opKeyTree j)
   | "prompt" => some (opPrompt j)
   | "paging" => some (opPaging j)
   | _ => none
